@@ -58,7 +58,7 @@ REQ_SETS = (
     "C11", "http_proxy_hop",
     quick=[{"px": px, "flavour": "sync"} for px in ("http", "https")],
     thorough=[{"px": px, "flavour": fl} for px in ("http", "https") for fl in ("sync", "async")],
-    example=dict(auth=True, ph=2, rq=1, secure=True, port=1, st=0),
+    example=dict(auth=True, ph=2, rq=1, secure=True, port=1, st=0, sni=False),
     require=("forwarded", "tunnelled", "connect-refused"),
     timeout={"quick": 300, "thorough": 600},
     symbolic="credentials on/off; proxy header set (3, one colliding case-insensitively); request method/headers/body (3); origin scheme http/https; port default/other; CONNECT reply status from 8 values",
@@ -66,7 +66,7 @@ REQ_SETS = (
     outside="IPv6-literal origins (known finding under C19); proxy replies with bodies",
     stubs=("ProxyServer model: strict parse of what the client wrote; answers CONNECT with the scripted status",),
 )
-def http_proxy_hop(auth: bool, ph: int, rq: int, secure: bool, port: int, st: int) -> None:
+def http_proxy_hop(auth: bool, ph: int, rq: int, secure: bool, port: int, st: int, sni: bool) -> None:
     """
     pre: 0 <= ph <= 2 and 0 <= rq <= 2 and 0 <= port <= 1 and 0 <= st <= 7
     post: _
@@ -79,12 +79,13 @@ def http_proxy_hop(auth: bool, ph: int, rq: int, secure: bool, port: int, st: in
     is_secure = bool(secure)
     other_port = ladder(port, 0, 1) == 1
     status = pick(st, CONNECT_STATUS) if is_secure else 200
-    with concrete(use_auth, is_secure, other_port, status, method):
-        _http_proxy_hop(is_async, px, pheaders, method, rheaders, body, use_auth, is_secure, other_port, status)
+    use_sni = bool(sni)
+    with concrete(use_auth, is_secure, other_port, status, method, use_sni):
+        _http_proxy_hop(is_async, px, pheaders, method, rheaders, body, use_auth, is_secure, other_port, status, use_sni)
 
 
 def _http_proxy_hop(is_async: bool, px: str, pheaders: list, method: str, rheaders: list, body: typing.Any,
-                    use_auth: bool, is_secure: bool, other_port: bool, status: int) -> None:
+                    use_auth: bool, is_secure: bool, other_port: bool, status: int, use_sni: bool = False) -> None:
     vrt.new_runtime(clock=7)
 
     origins: list[AutoOrigin] = []
@@ -114,7 +115,8 @@ def _http_proxy_hop(is_async: bool, px: str, pheaders: list, method: str, rheade
     hostport = f"o.test:{eff}" if other_port else "o.test"
     url = f"{scheme}://{hostport}/path?q=1"
     o = api.request(pool, method, url, headers=rheaders, content=body,
-                    extensions={"timeout": {"pool": 0, "read": 5, "write": 5, "connect": 5}})
+                    extensions=dict({"timeout": {"pool": 0, "read": 5, "write": 5, "connect": 5}},
+                                    **({"sni_hostname": "front.test"} if use_sni else {})))
     P.note(outcome=o.kind(), status=status)
     if not P.check(len(proxies) == 1, "one-proxy-connection", "proxy:connections"):
         return
@@ -203,15 +205,15 @@ AUTH_REPLY = (b"\x01\x00", b"\x01\x01")
     "C11", "socks_hop",
     quick=[{"scheme": sc, "flavour": "sync"} for sc in ("socks5", "socks5h")],
     thorough=[{"scheme": sc, "flavour": fl} for sc in ("socks5", "socks5h") for fl in ("sync", "async")],
-    example=dict(auth=True, mr=1, ar=0, rc=0, secure=False, hostkind=0),
+    example=dict(auth=True, mr=1, ar=0, rc=0, secure=False, hostkind=0, sni=False),
     require=("negotiated", "method-mismatch", "auth-failed", "connect-refused"),
     timeout={"quick": 300, "thorough": 600},
-    symbolic="credentials on/off; method reply (4); auth reply (2); reply code 0..8; origin scheme http/https; host a name or an IPv4 literal",
+    symbolic="credentials on/off; method reply (4); auth reply (2); reply code 0..8; origin scheme http/https; host a name or an IPv4 literal; sni_hostname extension set or not (it must only affect the TLS server name)",
     bounds="one request per run through a SOCKS5 proxy; replies are complete, well-formed SOCKS messages",
     outside="malformed/truncated SOCKS replies (C15); IPv6 literal origins",
     stubs=("SocksServer model: RFC 1928/1929 strict parse of what the client wrote",),
 )
-def socks_hop(auth: bool, mr: int, ar: int, rc: int, secure: bool, hostkind: int) -> None:
+def socks_hop(auth: bool, mr: int, ar: int, rc: int, secure: bool, hostkind: int, sni: bool) -> None:
     """
     pre: 0 <= mr <= 3 and 0 <= ar <= 1 and 0 <= rc <= 8 and 0 <= hostkind <= 1
     post: _
@@ -223,12 +225,13 @@ def socks_hop(auth: bool, mr: int, ar: int, rc: int, secure: bool, hostkind: int
     code = ladder(rc, 0, 8)
     is_secure = bool(secure)
     host = "o.test" if ladder(hostkind, 0, 1) == 0 else "10.1.2.3"
-    with concrete(use_auth, method_reply, auth_reply, code, is_secure, host):
-        _socks_hop(is_async, use_auth, method_reply, auth_reply, code, is_secure, host)
+    use_sni = bool(sni)
+    with concrete(use_auth, method_reply, auth_reply, code, is_secure, host, use_sni):
+        _socks_hop(is_async, use_auth, method_reply, auth_reply, code, is_secure, host, use_sni)
 
 
 def _socks_hop(is_async: bool, use_auth: bool, method_reply: bytes, auth_reply: bytes, code: int,
-               is_secure: bool, host: str) -> None:
+               is_secure: bool, host: str, use_sni: bool = False) -> None:
     vrt.new_runtime(clock=7)
     servers: list[SocksServer] = []
     origins: list[AutoOrigin] = []
@@ -250,7 +253,8 @@ def _socks_hop(is_async: bool, use_auth: bool, method_reply: bytes, auth_reply: 
     api = scen.Api(is_async)
     eff = 443 if is_secure else 80
     o = api.request(pool, "POST", f"{'https' if is_secure else 'http'}://{host}/p", headers=[(b"X-Secret", b"s3cret")],
-                    content=b"SECRETBODY", extensions={"timeout": {"pool": 0, "read": 5, "write": 5, "connect": 5}})
+                    content=b"SECRETBODY", extensions=dict({"timeout": {"pool": 0, "read": 5, "write": 5, "connect": 5}},
+                                                            **({"sni_hostname": "front.test"} if use_sni else {})))
     P.note(outcome=o.kind())
     if not P.check(len(servers) == 1, "one-proxy-connection", "socks:connections"):
         return
